@@ -96,7 +96,7 @@ for _s, _file, _fn, _ch, _def, _props in (("html", "html.c", "mmd_print_string_h
                                           ("latex", "latex.c", "mmd_print_string_latex", "mmd_print_char_latex", "-DSC_LATEX", ["C04"]),
                                           ("odf", "opendocument-content.c", "mmd_print_string_opendocument", "mmd_print_char_opendocument", "-DSC_ODF", ["C04", "C08"])):
     U("str_calls_" + _s, _props, "h_str_calls", ["C04/str_calls.c"], [_file], plain=True, lib=(), kind="bounded", drop_bodies=[_ch],
-      defines=["-DI18N_DISABLED=1", _def], cbmc_flags=["--unwind", "8", "--unwinding-assertions", "--object-bits", "10"],
+      defines=["-DI18N_DISABLED=1", _def], cbmc_flags=["--unwind", "8", "--unwindset", "ctype_init.0:258", "--unwinding-assertions", "--object-bits", "10"],
       bounds={"string length<=": 5, "bytes": "full domain", "unwind": 8}, functions=[_fn],
       callees={_ch: "contract stub recording the call trace (its own contract: esc_char_*)", "d_string_*": "contract stubs with precondition false (not called by the string printer)"},
       min_obligations=8, timeout=300, cost=5, assumptions=["configuration -DI18N_DISABLED"])
